@@ -1302,9 +1302,8 @@ class Parser:
                     key = Identifier("get")
                     if self._match(TokenType.COLON):
                         value = self._parse_assignment_expression()
-                    else:
-                        value = key
-                    return Property(key, value, "init", computed=False, shorthand=True)
+                        return Property(key, value, "init", computed=False)
+                    return Property(key, key, "init", computed=False, shorthand=True)
             elif self.current.value == "set":
                 self._advance()
                 if self._check(
@@ -1325,9 +1324,8 @@ class Parser:
                     key = Identifier("set")
                     if self._match(TokenType.COLON):
                         value = self._parse_assignment_expression()
-                    else:
-                        value = key
-                    return Property(key, value, "init", computed=False, shorthand=True)
+                        return Property(key, value, "init", computed=False)
+                    return Property(key, key, "init", computed=False, shorthand=True)
 
         # Parse key
         computed = False
@@ -1378,10 +1376,9 @@ class Parser:
             value = self._parse_assignment_expression()
         else:
             # Shorthand property: {x} means {x: x}
-            if isinstance(key, Identifier):
-                value = key
-            else:
-                raise self._error("Expected ':' after property name")
+            if isinstance(key, Identifier) and not computed:
+                return Property(key, key, kind, computed=False, shorthand=True)
+            raise self._error("Expected ':' after property name")
 
         return Property(key, value, kind, computed=computed)
 
